@@ -447,3 +447,47 @@ Proof.
   split; [|vm_compute; reflexivity].
   intros e e' H. cbn in H. destruct (3 <? e) eqn:E; [|discriminate]. apply Z.ltb_lt in E. inversion H. lia.
 Qed.
+
+(* ====================================================================== wave 3 *)
+(* Exception safety of the OpenMP regions: the translator lists every `throw` that sits lexically inside an
+   `omp parallel` region (today: none, `f_omp_throws gen_facts = []` is part of c01_src_facts_tied); then no region
+   of tapkee can end in std::terminate because of a throw statement of its own, whatever fails. *)
+Theorem c01_omp_regions_never_terminate : forall fails,
+  region_run (f_omp_throws gen_facts) fails = RegionDone.
+Proof. exact src_omp_regions_never_terminate. Qed.
+Print Assumptions c01_omp_regions_never_terminate.
+
+Theorem c01_omp_throw_in_region_refuted : forall site rest fails,
+  fails site = true -> region_run (site :: rest) fails = RegionTerminate.
+Proof. exact omp_throw_in_region_refuted. Qed.
+Print Assumptions c01_omp_throw_in_region_refuted.
+
+(* Calling context: no orphaned work-sharing construct, so every work-sharing loop completes all n iterations
+   before the caller continues, for every team size T of the application's own region. *)
+Theorem c01_omp_worksharing_complete : forall site T n,
+  ws_done (existsb (site_eqb site) (f_omp_orphans gen_facts)) T n = n.
+Proof. exact src_omp_worksharing_complete. Qed.
+Print Assumptions c01_omp_worksharing_complete.
+
+Theorem c01_omp_orphan_refuted : forall T n, 1 < T -> T < n -> ws_done true T n < n.
+Proof. exact omp_orphan_refuted. Qed.
+Print Assumptions c01_omp_orphan_refuted.
+
+Example c01_omp_orphan_nonvacuous : 1 < 2 /\ 2 < 12 /\ ws_done true 2 12 = 6.
+Proof. repeat split; reflexivity. Qed.
+
+(* SPE annealing with the divisor the source uses (the bound of the loop the statement sits in): the learning rate
+   is finite and in [0, 1] after the whole loop, for EVERY bound (including max_iteration = 0 "automatic", which is
+   replaced by a positive bound before the loop) and whatever other variables hold. *)
+Theorem c01_spe_lambda_finite : forall bound other,
+  exists l, spe_lambda_src gen_facts bound other = Some l /\ (0 <= l)%Q /\ (l <= 1)%Q.
+Proof. exact src_spe_lambda_finite. Qed.
+Print Assumptions c01_spe_lambda_finite.
+
+Theorem c01_spe_lambda_other_divisor_refuted : forall bound, 1 <= bound -> spe_lambda_final bound 0 = None.
+Proof. exact spe_lambda_other_divisor_refuted. Qed.
+Print Assumptions c01_spe_lambda_other_divisor_refuted.
+
+Example c01_spe_lambda_refuted_nonvacuous :
+  1 <= 2008 /\ exists l, spe_lambda_final 3 3 = Some l /\ (l == 8 # 27)%Q.
+Proof. split; [lia|]. eexists. split; [vm_compute; reflexivity|reflexivity]. Qed.
